@@ -11,6 +11,7 @@ import OSq.Model.Passes
   * `merge_registers`       register sizes are unchanged.
   * `merge_error_only_from_compose`  with in-range operands the pass raises only if a same-qubit `composeRot` fails.
   * `merge_no_error`, `merge_barriers`  in-range operands + `ComposeTotal` ⇒ no exception, statements as above.
+  * `merge_no_error_of_no_bsr`  in-range operands and no plain rotation at all ⇒ no exception.
   * `merge_emits_only_bsr`  every output statement is an input statement or a plain rotation.
   * `mergeLoop_trace`       loop invariant: for every qubit, what the rest of the run appends to the qubit's trace is
                             `specTrace` of the pending accumulator and the remaining trace.
@@ -428,6 +429,26 @@ theorem merge_no_error (atol : α) (c : Circuit α) (hr : OperandsInRange c.nQub
   · exact h
   · obtain ⟨r, hr⟩ := hcomp a b hq
     rw [hr] at he; cases he
+
+/-- a circuit without plain rotations and with in-range operands never raises (no composition is performed) -/
+theorem merge_no_error_of_no_bsr (atol : α) (c : Circuit α) (hr : OperandsInRange c.nQubits c.stmts)
+    (hb : ∀ s ∈ c.stmts, s.isBSR = false) : (merge atol c).2 = none := by
+  have key : ∀ (rest : List (Stmt α)), OperandsInRange c.nQubits rest → (∀ s ∈ rest, s.isBSR = false) →
+      ∀ (accs : Array (Rot α)) (out : List (Stmt α)), accs.size = c.nQubits → AccOK accs →
+        ∃ accs' out', mergeLoop atol accs out rest = .inr (accs', out') := by
+    intro rest
+    induction rest with
+    | nil => intro _ _ accs out _ _; exact ⟨accs, out, mergeLoop_nil atol accs out⟩
+    | cons s rest ih =>
+      intro hr hb accs out hsz hok
+      obtain ⟨accs', out', hf, hsz', hok'⟩ :=
+        flushOps_ok atol c.nQubits s.qubits (hr s List.mem_cons_self) accs out hsz hok
+      rw [mergeLoop_nonBSR_ok atol accs out rest s (hb s List.mem_cons_self) accs' out' hf]
+      exact ih (fun s' hs' => hr s' (List.mem_cons_of_mem _ hs'))
+        (fun s' hs' => hb s' (List.mem_cons_of_mem _ hs')) accs' (s :: out') hsz' hok'
+  obtain ⟨hsz, hok⟩ := initAccs_ok atol c.nQubits
+  obtain ⟨accs', out', h⟩ := key c.stmts hr hb _ [] hsz hok
+  rw [merge_eq, h]
 
 /-- **merge_barriers.** -/
 theorem merge_barriers (atol : α) (c : Circuit α) (hr : OperandsInRange c.nQubits c.stmts)
